@@ -337,6 +337,31 @@ func (fr *Frame) evalCallSite(cl *Clause, f Term, args []Val, st *State) Term {
 			if k < len(args) {
 				return args[k]
 			}
+		case cp.Kind == "it_i":
+			// in a call-site clause: the index of the current iteration of the innermost range loop
+			// around the call (= the number of iterations completed before it)
+			top := fr
+			for top.parent != nil && top.fn != fr.vc.fn {
+				top = top.parent
+			}
+			var in *loopInfo
+			for _, o := range top.loops {
+				if o.rangeIdx != nil && top.curBlock != nil && o.blocks[top.curBlock] && (in == nil || len(o.blocks) < len(in.blocks)) {
+					in = o
+				}
+			}
+			if in == nil {
+				fail("call-site clause %s: it_i used at a call outside a range loop", cl.Label)
+			}
+			c := top.cellOf[in.rangeIdx]
+			if c == nil {
+				return TV(IntLit(0))
+			}
+			ri, ok := st.cells[c]
+			if !ok {
+				ri = IntLit(-1)
+			}
+			return TV(ri)
 		}
 		return fr.bindLocal(cl, cp, st)
 	}
